@@ -387,13 +387,18 @@ def oracle(ctx, deep=False, broken=None):
                 if c not in cases:
                     cases.append(c)
 
+    for c in list(cases):
+        if c['deform'][0] is not None and rng.random() < (1.0 if deep else 0.35):
+            cases.append(dict(c, reuse=True))
+
     def chk(c):
         try:
-            code = K.build(c['class'], tuple(c['size']), (c['deform'][0], c['deform'][1]))
+            code = K.build(c['class'], tuple(c['size']), (c['deform'][0], c['deform'][1]), reuse=bool(c.get('reuse')))
         except Exception as e:  # noqa
             return f'construction raised {type(e).__name__}: {e}'
         return check_code(code, str(c), np.random.default_rng(1))
-    fails = first_failures(cases, chk, key=lambda c: {'kind': 'library', 'class': c['class']})
+    fails = first_failures(cases, chk, key=lambda c: {'kind': 'library', 'class': c['class'],
+                                                      'reuse': bool(c.get('reuse'))})
     n = len(cases)
     # user-defined codes
     for i in range(60 if deep else 25):
@@ -412,7 +417,7 @@ def replay(ctx, payload):
     c = payload['input']
     if c.get('kind') == 'library':
         try:
-            code = K.build(c['class'], tuple(c['size']), (c['deform'][0], c['deform'][1]))
+            code = K.build(c['class'], tuple(c['size']), (c['deform'][0], c['deform'][1]), reuse=bool(c.get('reuse')))
         except Exception:
             return True
         return check_code(code, str(c), np.random.default_rng(1)) is not None
